@@ -66,6 +66,11 @@ OpOK(c) ==
        \/ c.ret = OOM
        \/ (c.op = "AddSource" /\ c.ret > 0 /\ c.errors > 0)           \* diagnosed: error callback invoked
        \/ (c.op \in {"Scan", "Load", "Save"} /\ c.ret \in c.allowed)   \* documented scan/load errors caused by the failure
+\* C07: a compilation fails iff it says so through the error callback, with a message and a line number
+CompileOK(c) == /\ (c.ret > 0) = (c.errors > 0)
+                /\ c.ret = c.errors
+                /\ \A i \in DOMAIN c.msgs : c.msgs[i] > 0
+                /\ \A i \in DOMAIN c.lines : c.lines[i] >= 0      \* errors detected at end of input carry line 0
 \* after the fault sequence: the health check observed the normal result, and the heap is back to the baseline
 RunOK(c) == c.health = c.health_normal /\ c.heap_delta = 0
 =============================================================================
